@@ -51,7 +51,7 @@ template <class T> static std::string text_of(const T &x) { std::ostringstream o
 static bool zeq(mpz_srcptr a, const Z &b) { return mpz_cmp(a, b.get_mpz_t()) == 0; }
 
 // =========================================================================== (1) raw integers
-VF_SUB(integer_stream_roundtrip, 6000, 100000) {
+VF_SUB(integer_stream_roundtrip, 5400, 100000) {
   size_t cnt = (size_t)ctx.c.range(1, 5); ValGen vg(ctx, 2); ZV vals; std::string ref; std::stringstream ss;
   for (size_t i = 0; i < cnt; i++) { vals.push_back(vg.any()); ref += z62(vals[i]) + "\n"; ss << vals[i].get_mpz_t() << std::endl; }
   ctx.desc << cnt << " integers (" << vg.classes() << ") through operator<< / operator>>"; for (auto &h : vg.hit) ctx.label("value:" + h);
@@ -152,7 +152,7 @@ template <class X> static void card_case(Ctx &ctx) {
   if (!(su == sb)) ctx.fail("roundtrip/" + nm + "/import-into-used-object-differs", ctx.desc.str() + " (used object was " + su0.dims + "): " + describe_diff(sb, su));
   else if (text_of(u) != t1) ctx.fail("roundtrip/" + nm + "/re-exported-text-of-used-object-differs", ctx.desc.str());
 }
-VF_SUB(card_roundtrip, 6000, 90000) {
+VF_SUB(card_roundtrip, 5200, 90000) {
   switch (ctx.c.weighted({4, 4, 2, 1})) { case 0: card_case<XTmcgCard>(ctx); break; case 1: card_case<XTmcgCardSecret>(ctx); break; case 2: card_case<XVtmfCard>(ctx); break; default: card_case<XVtmfCardSecret>(ctx); }
 }
 
